@@ -109,10 +109,10 @@ func (c *Capture) Do(req *http.Request) (*http.Response, error) {
 
 // MemFS is an in-memory recording webdav.FileSystem that can hold arbitrary metadata.
 type MemFS struct {
-	mu    sync.Mutex
-	Files map[string]*MemFile // by path as given
-	Calls []Call
-	Hook  func(ctx context.Context, method, path string)
+	mu       sync.Mutex
+	Files    map[string]*MemFile // by path as given
+	Calls    []Call
+	Hook     func(ctx context.Context, method, path string)
 	NextETag *string // when set: the entity tag Create gives to what it stores
 }
 
